@@ -494,7 +494,7 @@ REGISTRY = {
     "C04": Spec("FFSM2.Props.C04", ["config"], machine_run("C04", ("random", "pingpong")), extra=("FFSM2.Props.History",)),
     "C05": Spec("FFSM2.Props.C05", ["ids"], machine_run("C05"), extra=("FFSM2.Props.History",)),
     "C06": Spec("FFSM2.Props.C06", ["ids"], machine_run("C06"), extra=("FFSM2.Props.History",)),
-    "C07": Spec("FFSM2.Props.C07", ["ids"], machine_run("C07")),
+    "C07": Spec("FFSM2.Props.C07", ["ids"], machine_run("C07"), extra=("FFSM2.Props.History",)),
     "C08": Spec("FFSM2.Props.C08", ["ids", "config"], machine_run("C08", ("random", "planveto"))),
     "C09": Spec("FFSM2.Props.C09", ["ids", "config"], machine_run("C09", ("random", "planveto", "reactivate")), extra=("FFSM2.Props.History",)),
     "C11": Spec("FFSM2.Props.C11", ["ids"], machine_run("C11", ("random", "replica")), extra=("FFSM2.Props.History",)),
